@@ -14,6 +14,8 @@ pub struct FnEntry {
     pub module: String,
     /// generics of the enclosing `impl` block
     pub impl_generics: Option<syn::Generics>,
+    /// the `impl` block's self type, for the impls that are told apart by their type arguments (`CmpWrapper<u32>`)
+    pub self_syn: Option<syn::Type>,
 }
 
 #[derive(Clone)]
@@ -33,6 +35,7 @@ pub struct Index {
     pub consts: Vec<ConstEntry>,
     pub aliases: Vec<(String, syn::ItemType)>,
     pub fn_by_name: HashMap<String, Vec<usize>>,
+    cur_self_syn: Option<syn::Type>,
 }
 
 fn type_name(t: &syn::Type) -> String {
@@ -45,6 +48,52 @@ fn type_name(t: &syn::Type) -> String {
         syn::Type::Array(_) => "[;]".to_string(),
         _ => "?".to_string(),
     }
+}
+
+/// canonical text of a type argument (references and lifetimes dropped): `u32`, `[u8]`, `Option<[u8]>`, `str`
+pub fn spec_key_syn(t: &syn::Type) -> String {
+    match t {
+        syn::Type::Reference(r) => spec_key_syn(&r.elem),
+        syn::Type::Paren(p) => spec_key_syn(&p.elem),
+        syn::Type::Group(p) => spec_key_syn(&p.elem),
+        syn::Type::Slice(s) => format!("[{}]", spec_key_syn(&s.elem)),
+        syn::Type::Path(p) => {
+            let seg = match p.path.segments.last() {
+                Some(s) => s,
+                None => return "?".into(),
+            };
+            let mut out = seg.ident.to_string();
+            if let syn::PathArguments::AngleBracketed(a) = &seg.arguments {
+                let args: Vec<String> = a.args.iter().filter_map(|x| if let syn::GenericArgument::Type(t) = x { Some(spec_key_syn(t)) } else { None }).collect();
+                if !args.is_empty() {
+                    out = format!("{}<{}>", out, args.join(","));
+                }
+            }
+            out
+        }
+        _ => "?".to_string(),
+    }
+}
+
+/// impls of these types are told apart by their (concrete) type arguments
+const SPECIALISED: &[&str] = &["CmpWrapper"];
+
+fn specialised_name(t: &syn::Type, g: &syn::Generics) -> Option<String> {
+    let base = type_name(t);
+    if !SPECIALISED.contains(&base.as_str()) {
+        return None;
+    }
+    let key = spec_key_syn(t);
+    if !key.contains('<') {
+        return None;
+    }
+    // an argument that mentions a type parameter of the impl: the generic impl
+    let params: Vec<String> = g.type_params().map(|p| p.ident.to_string()).collect();
+    let words: Vec<&str> = key.split(|c: char| !(c.is_alphanumeric() || c == '_')).collect();
+    if params.iter().any(|p| words.contains(&p.as_str())) {
+        return None;
+    }
+    Some(key)
 }
 
 impl Index {
@@ -76,7 +125,9 @@ impl Index {
                     if im.trait_.is_some() {
                         continue;
                     }
-                    let tn = type_name(&im.self_ty);
+                    let spec = specialised_name(&im.self_ty, &im.generics);
+                    let tn = spec.clone().unwrap_or_else(|| type_name(&im.self_ty));
+                    self.cur_self_syn = if spec.is_some() { Some((*im.self_ty).clone()) } else { None };
                     for ii in &im.items {
                         match ii {
                             ImplItem::Fn(m) => {
@@ -99,6 +150,7 @@ impl Index {
                             _ => {}
                         }
                     }
+                    self.cur_self_syn = None;
                 }
                 _ => {}
             }
@@ -108,6 +160,7 @@ impl Index {
     fn add_fn(&mut self, module: &str, prefix: &str, self_ty: Option<String>, f: &ItemFn, impl_generics: Option<syn::Generics>) {
         let path = format!("{}::{}", prefix, f.sig.ident);
         let idx = self.fns.len();
+        let self_ty_is_some = self_ty.is_some();
         self.fns.push(FnEntry {
             path: path.clone(),
             self_ty,
@@ -115,6 +168,7 @@ impl Index {
             block: (*f.block).clone(),
             module: module.to_string(),
             impl_generics,
+            self_syn: if self_ty_is_some { self.cur_self_syn.clone() } else { None },
         });
         self.fn_by_name.entry(f.sig.ident.to_string()).or_default().push(idx);
         // nested items inside the body
